@@ -1,4 +1,6 @@
-import ThermoVerif.Props.C09Store
+import ThermoVerif.Lemmas.C09ArrayAux
+-- Only statements of the property live in this file.  Helper lemmas and the auxiliary vocabulary they need are in
+-- Lemmas/C09ArrayAux.lean (same namespace); clauses without a theorem are listed at the end of Props/C09.lean.
 /-
 Property C09, 2-d clauses: the element-wise operators and the reductions of a SparseArray against
 the 2-d NumPy reference `np2` / `npReduce` — the vector theorems lifted row by row, including the
@@ -12,143 +14,7 @@ open ThermoVerif.Sparse ThermoVerif.Dense
 /-- `+ − × ÷` and the six comparisons (everything a float array supports) -/
 def ElemOp (op : BinOp) : Prop := (arithOf op).isSome ∨ (cmpOf op).isSome
 
-theorem cmpOf_fn (op : BinOp) (c : Cmp) (h : cmpOf op = some c) : op.fn = c.toBin.fn := by
-  cases op <;> simp [cmpOf] at h <;> subst h <;> rfl
-
-theorem vec_toDense_copy (c : SV) : (VecObj.sv c.copy).toDense = c.toDense := rfl
-
-/-- row kernel, sparse operand: NumPy's 1-d result on the dense images -/
-theorem row_hom_sparse (op : BinOp) (a b : SV) (r : VecObj) (ha : a.WF) (hb : b.WF)
-    (h : SV.opSparse op a b = .ok r) : VecWF r ∧ np1 op.fn a.toDense b.toDense = .ok r.toDense := by
-  refine ⟨sv_opSparse_wf op a b r ha hb h, ?_⟩
-  unfold SV.opSparse at h
-  split at h
-  · rename_i ar har
-    obtain ⟨c, hc, e⟩ := except_map_ok h; subst e
-    rw [arithOf_fn op ar har]
-    exact (dense_hom_arith_sparse ar false a b c ha hb hc).2
-  · rename_i _ _ c hcm _
-    obtain ⟨v, hv, e⟩ := except_map_ok h; subst e
-    rw [cmpOf_fn op c hcm]
-    exact (cmpSparse_ok c a b v hv).2
-  · cases h
-
-theorem row_hom_array (op : BinOp) (a : SV) (l : Vec) (r : VecObj) (ha : a.WF)
-    (h : SV.opArray op a l = .ok r) : VecWF r ∧ np1 op.fn a.toDense l = .ok r.toDense := by
-  refine ⟨sv_opArray_wf op a l r ha h, ?_⟩
-  unfold SV.opArray at h
-  split at h
-  · rename_i ar har
-    obtain ⟨c, hc, e⟩ := except_map_ok h; subst e
-    rw [arithOf_fn op ar har]
-    exact (dense_hom_arith_array ar a c l ha hc).2
-  · rename_i _ _ c hcm _
-    obtain ⟨v, hv, e⟩ := except_map_ok h; subst e
-    rw [cmpOf_fn op c hcm]
-    exact (cmpArray_ok c a l v hv).2
-  · cases h
-
-/-- NumPy with a one-element operand is the scalar operation -/
-theorem np1_singleton (f : Rat → Rat → Rat) (l : Vec) (x : Rat) : np1 f l [x] = .ok (np1s f l x) := by
-  unfold np1 np1s
-  by_cases h1 : l.length = 1
-  · obtain ⟨y, rfl⟩ := List.length_eq_one_iff.mp h1
-    simp
-  · simp [h1]
-
-theorem row_hom_scalar (op : BinOp) (a : SV) (x : Rat) (r : VecObj) (ha : a.WF)
-    (h : SV.opScalar op a x = .ok r) : VecWF r ∧ np1 op.fn a.toDense [x] = .ok r.toDense := by
-  refine ⟨sv_opScalar_wf op a x r ha h, ?_⟩
-  rw [np1_singleton]
-  unfold SV.opScalar at h
-  split at h
-  · rename_i ar har
-    obtain ⟨c, hc, e⟩ := except_map_ok h; subst e
-    rw [arithOf_fn op ar har, vec_toDense_copy, (dense_hom_arith_scalar ar a c x ha hc).2]
-  · rename_i _ _ c hcm _
-    simp only [Except.ok.injEq] at h; subst h
-    rw [cmpOf_fn op c hcm]
-    exact congrArg Except.ok (cmpScalar_ok c a x).2.symm
-  · cases h
-
 /-! ### lifting over the rows -/
-
-/-- if every step of a `mapM` has a dense counterpart, the whole `mapM` has -/
-theorem mapM_lift {α : Type} (K : α → Except Err VecObj) (D : α → Except NpErr Vec)
-    (hKD : ∀ x r, K x = .ok r → D x = .ok r.toDense) :
-    ∀ (l : List α) (cs : List VecObj), l.mapM K = .ok cs → l.mapM D = .ok (cs.map VecObj.toDense) := by
-  intro l
-  induction l with
-  | nil => intro cs h; simp [List.mapM_nil, pure, Except.pure] at h; subst h; rfl
-  | cons a l ih =>
-    intro cs h
-    rw [List.mapM_cons] at h ⊢
-    cases hka : K a with
-    | error e => rw [hka] at h; cases h
-    | ok r =>
-      rw [hka] at h
-      cases hl : l.mapM K with
-      | error e => rw [hl] at h; cases h
-      | ok rs =>
-        rw [hl] at h
-        simp only [bind, Except.bind, pure, Except.pure, Except.ok.injEq] at h
-        subst h
-        rw [hKD a r hka, ih rs hl]
-        rfl
-
-theorem mapM_map {α β γ ε : Type} (g : α → β) (D : β → Except ε γ) (l : List α) :
-    (l.map g).mapM D = l.mapM (fun x => D (g x)) := by
-  induction l with
-  | nil => rfl
-  | cons a l ih => simp only [List.map_cons, List.mapM_cons, ih]
-
-/-- the rows of a float array -/
-def svRows (rows : List SV) : List VecObj := rows.map VecObj.sv
-def denseRows (rows : List SV) : Mat := rows.map SV.toDense
-
-theorem rowsBool_svRows (rows : List SV) : rowsBool (svRows rows) = false := by
-  cases rows <;> rfl
-
-theorem coerce_float (v : VecObj) (me : Bool) : coerce false false v me = v := by
-  unfold coerce; cases me <;> simp
-
-theorem map_coerce_float (l : List VecObj) (me : Bool) : l.map (fun r => coerce false false r me) = l := by
-  induction l with
-  | nil => rfl
-  | cons a l ih => simp [coerce_float, ih]
-
-/-- row-wise lifting: if the row kernel `K` agrees with the 1-d NumPy function `D` on every
-well-formed row, the list of result rows agrees with `D` mapped over the dense rows -/
-theorem sv_mapM_hom (K : SV → Except Err VecObj) (D : Vec → Except NpErr Vec)
-    (hKD : ∀ a r, a.WF → K a = .ok r → VecWF r ∧ D a.toDense = .ok r.toDense) :
-    ∀ (rs : List SV) (cs : List VecObj), (∀ r ∈ rs, r.WF) → rs.mapM K = .ok cs →
-      (∀ c ∈ cs, VecWF c) ∧ (denseRows rs).mapM D = .ok (cs.map VecObj.toDense) := by
-  intro rs
-  induction rs with
-  | nil => intro cs _ h; simp [List.mapM_nil, pure, Except.pure] at h; subst h; exact ⟨by simp, rfl⟩
-  | cons a rs ih =>
-    intro cs hwf h
-    rw [List.mapM_cons] at h
-    cases hka : K a with
-    | error e => rw [hka] at h; cases h
-    | ok r =>
-      rw [hka] at h
-      cases hl : rs.mapM K with
-      | error e => rw [hl] at h; cases h
-      | ok rs' =>
-        rw [hl] at h
-        simp only [bind, Except.bind, pure, Except.pure, Except.ok.injEq] at h
-        subst h
-        have h1 := hKD a r (hwf a List.mem_cons_self) hka
-        have h2 := ih rs' (fun r hr => hwf r (List.mem_cons_of_mem _ hr)) hl
-        refine ⟨?_, ?_⟩
-        · intro c hc
-          rcases List.mem_cons.mp hc with e | e
-          · subst e; exact h1.1
-          · exact h2.1 c e
-        · unfold denseRows at h2 ⊢
-          rw [List.map_cons, List.mapM_cons, h1.2, h2.2]
-          rfl
 
 /-- **dense_hom, array ∘ scalar** (`sa op x`): every row against the broadcast scalar, as `np2` does
 for a (m, n) array and a 0-d operand -/
@@ -192,17 +58,6 @@ theorem dense_hom_sa_sv (s : Store) (op : BinOp) (rows : List SV) (j : Nat) (b :
   simp only [svRows, mapM_map, VecObj.opSparse, VecObj.toSV] at hcs
   exact sv_mapM_hom _ _ (fun a r ha hk => row_hom_sparse op a b r ha hb hk) rows _ hw hcs
 
-/-- `np2` with a single operand row (a 1-d or 0-d operand, or a one-row array) is the row-wise map -/
-theorem np2_single (f : Rat → Rat → Rat) (A : Mat) (b : Vec) :
-    np2 f A [b] = A.mapM (fun r => np1 f r b) := by
-  unfold np2
-  by_cases h1 : A.length = 1
-  · obtain ⟨a, rfl⟩ := List.length_eq_one_iff.mp h1
-    simp
-  · have h1' : ¬ A.length = [b].length := by simpa using h1
-    rw [if_neg h1', if_neg h1]
-    simp
-
 /-- the same three theorems in terms of the 2-d reference `np2` -/
 theorem dense_hom_sa_scalar_np2 (s : Store) (op : BinOp) (rows : List SV) (l : Lit) (x : Rat) (cs : List VecObj)
     (hw : ∀ r ∈ rows, r.WF) (hred : l.reduce = .scalar x)
@@ -223,63 +78,6 @@ theorem dense_hom_sa_sv_np2 (s : Store) (op : BinOp) (rows : List SV) (j : Nat) 
   rw [np2_single]; exact (dense_hom_sa_sv s op rows j b cs hw hb hj h).2
 
 /-! ### array ∘ array, array ∘ 2-d literal -/
-
-/-- which row meets which (on float rows): mirror of `pairRows` -/
-def pairSV (rs os : List SV) : List (SV × SV) :=
-  match rs, os with
-  | [r], _ => os.map (fun o => (r, o))
-  | _, [o] => rs.map (fun r => (r, o))
-  | _, _ => rs.zip os
-
-theorem pairRows_sv (rs os : List SV) :
-    pairRows (svRows rs) (svRows os) = (pairSV rs os).map (fun p => (VecObj.sv p.1, VecObj.sv p.2)) := by
-  rcases rs with _ | ⟨r, _ | ⟨r2, rt⟩⟩ <;> rcases os with _ | ⟨o, _ | ⟨o2, ot⟩⟩ <;>
-    simp [pairRows, pairSV, svRows, zipTrunc, List.zip_map, List.map_map, Function.comp_def]
-
-/-- for broadcastable row counts `np2` meets exactly the row pairs of `pairSV` -/
-theorem np2_pairSV (f : Rat → Rat → Rat) (rs os : List SV)
-    (hshape : rs.length = os.length ∨ rs.length = 1 ∨ os.length = 1) :
-    np2 f (denseRows rs) (denseRows os) =
-      ((pairSV rs os).map (fun p => (p.1.toDense, p.2.toDense))).mapM (fun p => np1 f p.1 p.2) := by
-  rcases rs with _ | ⟨r, _ | ⟨r2, rt⟩⟩ <;> rcases os with _ | ⟨o, _ | ⟨o2, ot⟩⟩ <;>
-    simp [np2, pairSV, denseRows, List.zip_map, mapM_map, List.map_map, Function.comp_def] at hshape ⊢
-  intro hn; exact absurd hshape hn
-
-theorem gen_mapM_hom {α : Type} (P : α → Prop) (K : α → Except Err VecObj) (D : α → Except NpErr Vec)
-    (hKD : ∀ a r, P a → K a = .ok r → VecWF r ∧ D a = .ok r.toDense) :
-    ∀ (l : List α) (cs : List VecObj), (∀ a ∈ l, P a) → l.mapM K = .ok cs →
-      (∀ c ∈ cs, VecWF c) ∧ l.mapM D = .ok (cs.map VecObj.toDense) := by
-  intro l
-  induction l with
-  | nil => intro cs _ h; simp [List.mapM_nil, pure, Except.pure] at h; subst h; exact ⟨by simp, rfl⟩
-  | cons a l ih =>
-    intro cs hp h
-    rw [List.mapM_cons] at h
-    cases hka : K a with
-    | error e => rw [hka] at h; cases h
-    | ok r =>
-      rw [hka] at h
-      cases hl : l.mapM K with
-      | error e => rw [hl] at h; cases h
-      | ok rs' =>
-        rw [hl] at h
-        simp only [bind, Except.bind, pure, Except.pure, Except.ok.injEq] at h
-        subst h
-        have h1 := hKD a r (hp a List.mem_cons_self) hka
-        have h2 := ih rs' (fun x hx => hp x (List.mem_cons_of_mem _ hx)) hl
-        refine ⟨?_, ?_⟩
-        · intro c hc
-          rcases List.mem_cons.mp hc with e | e
-          · subst e; exact h1.1
-          · exact h2.1 c e
-        · rw [List.mapM_cons, h1.2, h2.2]; rfl
-
-theorem pairSV_mem (rs os : List SV) (p : SV × SV) (h : p ∈ pairSV rs os) : p.1 ∈ rs ∧ p.2 ∈ os := by
-  unfold pairSV at h
-  split at h
-  · obtain ⟨o, ho, e⟩ := List.mem_map.mp h; subst e; exact ⟨List.mem_singleton.mpr rfl, ho⟩
-  · obtain ⟨r, hr, e⟩ := List.mem_map.mp h; subst e; exact ⟨hr, List.mem_singleton.mpr rfl⟩
-  · exact ⟨(List.of_mem_zip h).1, (List.of_mem_zip h).2⟩
 
 /-- **dense_hom, array ∘ array** (`sa op sb`, both float): NumPy's 2-d result, including the
 broadcasting of a one-row side.  (Row counts that NumPy cannot broadcast are the known finding
@@ -329,42 +127,6 @@ theorem dense_hom_sa_matrix (s : Store) (op : BinOp) (rows : List SV) (l : Lit) 
 
 /-! ### reductions along the rows (`axis=1`) and over the whole array (`axis=None`) -/
 
-theorem tab_toDense (n : Nat) (f : Nat → Rat) : VecObj.toDense (.sv ⟨n, Dct.tabulate n f, false⟩) = vecOf n f := by
-  show SV.toDense _ = _
-  apply SV.toDense_of_get _ _ _ rfl
-  intro i hi
-  rw [SV.get_def]; dsimp only
-  rw [Dct.get_tabulate]; simp [hi]
-
-theorem vecOf_getElem? {α : Type} (l : List α) (g : α → Rat) (d : Rat) :
-    vecOf l.length (fun i => match l[i]? with | some r => g r | none => d) = l.map g := by
-  apply List.ext_getElem
-  · simp [vecOf_length]
-  · intro i h1 h2
-    simp only [vecOf_length] at h1
-    simp [vecOf, List.getElem?_eq_getElem h1]
-
-theorem keepN_toDense (x : Rat) : (keepN x).toDense = [x] := by
-  show SV.toDense (SV.keep x) = _
-  unfold SV.keep SV.toDense
-  by_cases h : x = 0
-  · subst h; simp [SV.get, Dct.get]
-  · simp [h, SV.get, Dct.get]
-
-theorem keepB_toDense (b : Bool) : (keepB b).toDense = [b2r b] := by
-  show SLV.toDense (SLV.keep b) = _
-  unfold SLV.keep SLV.toDense
-  cases b <;> simp [SLV.mem, b2r]
-
-theorem ofList_toDense (l : Vec) : VecObj.toDense (.sv ⟨l.length, Dct.ofList l, false⟩) = l := by
-  show SV.toDense _ = _
-  rw [vec_eq_vecOf l]
-  simp only [vecOf_length]
-  apply SV.toDense_of_get _ _ _ rfl
-  intro i _
-  rw [SV.get_def]; dsimp only
-  rw [Dct.get_ofList, ← vec_eq_vecOf l]
-
 /-- `vecOf n (fun i => match rows[i]? …) = rows.map …` by extensionality -/
 macro "rows_ext" : tactic =>
   `(tactic| (apply List.ext_getElem
@@ -372,17 +134,6 @@ macro "rows_ext" : tactic =>
              · intro i h1 h2
                simp only [vecOf_length, svRows, List.length_map] at h1
                simp [vecOf, svRows, List.getElem?_eq_getElem h1, VecObj.sum, VecObj.anyB, VecObj.allB]))
-
-/-- reducing the rows one by one, on the dense side -/
-theorem rows_redVec (r : Red) (g : SV → Rat) (rows : List SV)
-    (hg : ∀ a ∈ rows, redVec r a.toDense = .ok (g a)) :
-    (denseRows rows).mapM (redVec r) = .ok (rows.map g) := by
-  unfold denseRows
-  induction rows with
-  | nil => rfl
-  | cons a rows ih =>
-    rw [List.map_cons, List.mapM_cons, hg a List.mem_cons_self, ih (fun x hx => hg x (List.mem_cons_of_mem _ hx))]
-    rfl
 
 /-- **`sa.sum(axis=1)`**, with and without `keepdims` -/
 theorem dense_hom_sa_sum_axis1 (rows : List SV) (hw : ∀ r ∈ rows, r.WF) :
@@ -438,32 +189,6 @@ theorem dense_hom_sa_all_axis1 (rows : List SV) (hw : ∀ r ∈ rows, r.WF) :
     simp only [svRows, List.map_map, Function.comp_def, keepB_toDense]
     rfl
 
-theorem rows_max (rows : List SV) (hw : ∀ a ∈ rows, a.WF ∧ a.size ≠ 0) :
-    ∃ l, (svRows rows).mapM VecObj.max = .ok l ∧ (denseRows rows).mapM (redVec .max) = .ok l := by
-  induction rows with
-  | nil => exact ⟨[], rfl, rfl⟩
-  | cons a rows ih =>
-    obtain ⟨l, h1, h2⟩ := ih (fun x hx => hw x (List.mem_cons_of_mem _ hx))
-    obtain ⟨m, hm1, hm2⟩ := dense_hom_max a (hw a List.mem_cons_self).1 (hw a List.mem_cons_self).2
-    refine ⟨m :: l, ?_, ?_⟩
-    · simp only [svRows, List.map_cons, List.mapM_cons] at h1 ⊢
-      rw [show VecObj.max (.sv a) = a.max from rfl, hm1, h1]; rfl
-    · simp only [denseRows, List.map_cons, List.mapM_cons] at h2 ⊢
-      rw [hm2, h2]; rfl
-
-theorem rows_min (rows : List SV) (hw : ∀ a ∈ rows, a.WF ∧ a.size ≠ 0) :
-    ∃ l, (svRows rows).mapM VecObj.min = .ok l ∧ (denseRows rows).mapM (redVec .min) = .ok l := by
-  induction rows with
-  | nil => exact ⟨[], rfl, rfl⟩
-  | cons a rows ih =>
-    obtain ⟨l, h1, h2⟩ := ih (fun x hx => hw x (List.mem_cons_of_mem _ hx))
-    obtain ⟨m, hm1, hm2⟩ := dense_hom_min a (hw a List.mem_cons_self).1 (hw a List.mem_cons_self).2
-    refine ⟨m :: l, ?_, ?_⟩
-    · simp only [svRows, List.map_cons, List.mapM_cons] at h1 ⊢
-      rw [show VecObj.min (.sv a) = a.min from rfl, hm1, h1]; rfl
-    · simp only [denseRows, List.map_cons, List.mapM_cons] at h2 ⊢
-      rw [hm2, h2]; rfl
-
 /-- **`sa.max(axis=1)` / `sa.min(axis=1)`** (rows not empty), with and without `keepdims` -/
 theorem dense_hom_sa_max_axis1 (rows : List SV) (hw : ∀ a ∈ rows, a.WF ∧ a.size ≠ 0) :
     ∃ l, (denseRows rows).mapM (redVec .max) = .ok l ∧
@@ -503,19 +228,6 @@ theorem dense_hom_sa_min_axis1 (rows : List SV) (hw : ∀ a ∈ rows, a.WF ∧ a
     subst h
     simp [List.map_map, Function.comp_def, keepN_toDense]
 
-/-- the row mean of the array code (`x / size if x else 0`) is the vector's `mean` -/
-theorem row_mean_eq (a : SV) : (if a.sum = 0 then 0 else a.sum / (a.size : Rat)) = a.mean := by
-  unfold SV.mean
-  by_cases he : a.dct.isEmpty = true
-  · have : a.sum = 0 := by
-      unfold SV.sum
-      have : a.dct = [] := by simpa using he
-      rw [this]; rfl
-    simp [he, this]
-  · by_cases hs : a.sum = 0
-    · simp [he, hs]
-    · simp [he, hs]
-
 /-- **`sa.mean(axis=1)`** (rows not empty) -/
 theorem dense_hom_sa_mean_axis1 (rows : List SV) (hw : ∀ a ∈ rows, a.WF ∧ a.size ≠ 0) :
     (denseRows rows).mapM (redVec .mean) = .ok (rows.map SV.mean) ∧
@@ -543,26 +255,6 @@ theorem dense_hom_sa_mean_axis1 (rows : List SV) (hw : ∀ a ∈ rows, a.WF ∧ 
 
 /-! ### `axis=None` -/
 
-def flat (A : Mat) : Vec := A.foldr (· ++ ·) []
-
-theorem sum_flat (A : Mat) : (flat A).sum = (A.map List.sum).sum := by
-  unfold flat
-  induction A with
-  | nil => rfl
-  | cons r A ih => simp only [List.foldr_cons, List.sum_append, List.map_cons, List.sum_cons, ih]
-
-theorem any_flat (A : Mat) (p : Rat → Bool) : (flat A).any p = A.any (fun r => r.any p) := by
-  unfold flat
-  induction A with
-  | nil => rfl
-  | cons r A ih => simp only [List.foldr_cons, List.any_append, List.any_cons, ih]
-
-theorem all_flat (A : Mat) (p : Rat → Bool) : (flat A).all p = A.all (fun r => r.all p) := by
-  unfold flat
-  induction A with
-  | nil => rfl
-  | cons r A ih => simp only [List.foldr_cons, List.all_append, List.all_cons, ih]
-
 /-- **`sa.sum()`**: the sum of the row sums is the sum over all elements of the dense image -/
 theorem dense_hom_sa_sum_all (rows : List SV) (hw : ∀ a ∈ rows, a.WF) :
     reduceSA .sum (svRows rows) none false = .ok (.num ((rows.map SV.sum).sum)) ∧
@@ -581,18 +273,6 @@ theorem dense_hom_sa_sum_all (rows : List SV) (hw : ∀ a ∈ rows, a.WF) :
     simp only [redVec, Except.ok.injEq] at this
     simp only [Function.comp]
     rw [← vsum_eq_sum, this]
-
-theorem any_congr_mem {α : Type} (l : List α) (p q : α → Bool) (h : ∀ a ∈ l, p a = q a) : l.any p = l.any q := by
-  induction l with
-  | nil => rfl
-  | cons a l ih =>
-    simp only [List.any_cons, h a List.mem_cons_self, ih (fun x hx => h x (List.mem_cons_of_mem _ hx))]
-
-theorem all_congr_mem {α : Type} (l : List α) (p q : α → Bool) (h : ∀ a ∈ l, p a = q a) : l.all p = l.all q := by
-  induction l with
-  | nil => rfl
-  | cons a l ih =>
-    simp only [List.all_cons, h a List.mem_cons_self, ih (fun x hx => h x (List.mem_cons_of_mem _ hx))]
 
 /-- **`sa.any()` / `sa.all()`** -/
 theorem dense_hom_sa_any_all (rows : List SV) (hw : ∀ a ∈ rows, a.WF) :
@@ -627,26 +307,6 @@ theorem mapM_ok {α β : Type} (f : α → β) (l : List α) :
   induction l with
   | nil => rfl
   | cons a l ih => rw [List.mapM_cons, ih]; rfl
-
-/-- the columns of the dense image of a rectangular array -/
-theorem transpose_dense (rows : List SV) (hrect : ∀ a ∈ rows, a.size = vectorSize (svRows rows)) :
-    transpose (denseRows rows) =
-      (List.range (vectorSize (svRows rows))).map (fun j => rows.map (fun a => a.get j)) := by
-  unfold transpose
-  have hlen : ((denseRows rows).getD 0 []).length = vectorSize (svRows rows) := by
-    cases rows with
-    | nil => rfl
-    | cons a rows => simp [denseRows, vectorSize, svRows, SV.toDense_length, VecObj.size]
-  rw [hlen]
-  apply List.map_congr_left
-  intro j hj
-  have hj' := List.mem_range.mp hj
-  unfold denseRows
-  rw [List.map_map]
-  apply List.map_congr_left
-  intro a ha
-  simp only [Function.comp]
-  exact toDense_getD a j (by rw [hrect a ha]; exact hj')
 
 /-- **`sa.sum(axis=0)`** of a rectangular float array -/
 theorem dense_hom_sa_sum_axis0 (rows : List SV) (hrect : ∀ a ∈ rows, a.size = vectorSize (svRows rows)) :
